@@ -14,6 +14,7 @@ def run(ctx):
     if not cargo_harness(ctx, ['h_entry']): return
     nw, nf = (60, 8) if ctx.quick() else (600, 80)
     w = ctx.work; e = env_offline(); e['VERIF_SEED'] = str(ctx.seed)
+    if not ctx.quick(): e['VERIF_ENTRY_FILE_SIZES'] = ','.join(str(x) for x in [0, 1, 4095, 65536, (1 << 20) + 7, (8 << 20) + 1, (32 << 20) - 1, 32 << 20, (32 << 20) + 11, (64 << 20) + 5, (128 << 20) - 1, 128 << 20, (128 << 20) + 1, (136 << 20) + 3, (200 << 20) + 9, (300 << 20) + 1])
     rc, out, dt = sh([harness_bin('h_entry'), 'gen', str(nw), str(nf), f'{w}/wreq.txt', f'{w}/real.txt', f'{w}/faults.txt', f'{w}/summary.json'], env=e, timeout=7200)
     if rc != 0: ctx.broken.append('h_entry gen crashed: ' + out[-300:]); return
     s = json.load(open(f'{w}/summary.json'))
@@ -31,13 +32,13 @@ def run(ctx):
             if int(m.group(5)): ctx.broken.append('correspondence entry-reader: model accepts/returns something the real zip reader does not on %s archives: %s' % (m.group(5), out[:400].replace('\n', ' ')))
     else: ctx.broken.append('correspondence entry: modeld missing')
     os.remove(f'{w}/faults.txt')
-    ctx.evaluations += s['fault_cases'] + s['roundtrip_members']
+    ctx.evaluations += s['fault_cases'] + s['roundtrip_members'] + s['file_roundtrips']
     ctx.distinct_nontrivial += s['cacheread_fail']     # every faulted archive that the real reader refused is a distinct (archive, member) case
     ctx.rules.append('h_entry: random entries (1-4 members from 9 names incl. empty/non-ASCII/with slash, lengths 0..300 and every tenth up to 200 kB, 6 modes or none, '
-                     'optional/empty stdout and stderr) for the writer tie and round-trip monitor; for small entries every truncation point and 6 substitutions at every byte '
+                     'optional/empty stdout and stderr) for the writer tie and round-trip monitor; file-level round trips through CacheWrite::from_objects / extract_objects for sizes 0 .. beyond 128 MiB (zeros, periodic, pseudo-random); for small entries every truncation point and 6 substitutions at every byte '
                      'position x every member for the reader tie and the corruption monitor; distinct_nontrivial = faulted (archive, member) pairs refused by the real CacheRead')
     ctx.samples += s['samples']
-    ctx.cov.update({k: s[k] for k in ('writer_entries', 'large_entries', 'roundtrip_members', 'fault_entries', 'fault_cases', 'cacheread_fail', 'cacheread_identical', 'cacheread_different', 'inconsistent_with_zip_plus_zstd')})
+    ctx.cov.update({k: s[k] for k in ('file_roundtrips', 'file_roundtrip_sizes', 'writer_entries', 'large_entries', 'roundtrip_members', 'fault_entries', 'fault_cases', 'cacheread_fail', 'cacheread_identical', 'cacheread_different', 'inconsistent_with_zip_plus_zstd')})
     if s['inconsistent_with_zip_plus_zstd']: ctx.broken.append('CacheRead is no longer zip-level read + zstd decode on %d cases' % s['inconsistent_with_zip_plus_zstd'])
     monitor_failures(ctx, s['monitor_failures'], findings, 'h_entry monitor', to_replay)
     ctx.assumptions += ['zstd is a parameter (enc, dec) with dec (enc x) = x', 'theorems cover intact entries and substitutions inside member bodies; truncations and header-field substitutions are explored exhaustively on small real entries (search, not proof) — partial']
